@@ -117,7 +117,7 @@ class Program:
     def lookup_type(self, path):
         """path: list of segments (generics stripped). returns (TypeDef, variant|None) or None"""
         # enum variant: [..., Enum, Variant]; struct: [..., Struct]
-        for pos in (-1, -2):
+        for pos in (-2, -1):
             if len(path) < -pos:
                 continue
             name = path[pos]
@@ -127,7 +127,9 @@ class Program:
             if pos == -2:
                 cands = [c for c in cands if c.kind == 'enum' and path[-1] in c.disc]
             else:
-                cands = [c for c in cands if c.kind == 'struct'] or cands
+                cands = [c for c in cands if c.kind == 'struct']
+            if not cands:
+                continue
             if len(cands) > 1 and len(path) >= -pos + 1:
                 mod = path[pos - 1]
                 c2 = [c for c in cands if c.module == mod]
